@@ -43,12 +43,12 @@ Lemma a_seen_abs key s :
 Proof.
   unfold a_seen, abs, lookup, live; cbn.
   destruct (find key (rdata (store s))) as [[v [t|]]|]; cbn; try reflexivity.
-  destruct (rnow (store s) <? t); reflexivity.
+  destruct (before (expiry_inclusive (store s)) (rnow (store s)) t); reflexivity.
 Qed.
 
 Lemma abs_taken key l s :
   abs key (mkState (taken key l (store s)) (insts s)) =
-  mkA (Some (BStr (iid l), Some (rnow (store s) + lease (isecs l)))) (rnow (store s)) (insts s).
+  mkA (Some (BStr (iid l), Some (rnow (store s) + lease (isecs l)))) (rnow (store s)) (insts s) (expiry_inclusive (store s)).
 Proof. unfold abs, taken; cbn. now rewrite find_put_same. Qed.
 
 Lemma step_abs key s o :
@@ -107,16 +107,12 @@ Qed.
 Lemma lease_pos secs : 0 <= secs -> (lease secs <=? 0) = false.
 Proof. intro H. unfold lease, millisPerSecond, tolerance. apply Z.leb_gt. lia. Qed.
 
-Lemma seen_taken key l s :
+Lemma seen_taken key l s : 0 < lease (isecs l) ->
   seen key (mkState (taken key l (store s)) (insts s)) =
-  if 0 <? lease (isecs l)
-  then Some (mkEntry (BStr (iid l)) (Some (rnow (store s) + lease (isecs l)))) else None.
+  Some (mkEntry (BStr (iid l)) (Some (rnow (store s) + lease (isecs l)))).
 Proof.
-  unfold seen, taken; cbn. rewrite lookup_put_same. unfold live; cbn.
-  replace (rnow (store s) <? rnow (store s) + lease (isecs l)) with (0 <? lease (isecs l)); [reflexivity|].
-  destruct (0 <? lease (isecs l)) eqn:E; symmetry.
-  - apply Z.ltb_lt in E. apply Z.ltb_lt. lia.
-  - apply Z.ltb_ge in E. apply Z.ltb_ge. lia.
+  intro H. unfold seen, taken; cbn. rewrite lookup_put_same. unfold live; cbn.
+  rewrite before_lt by lia. reflexivity.
 Qed.
 
 Lemma acquire_spec key s i l :
@@ -133,17 +129,17 @@ Lemma acquire_spec key s i l :
 Proof.
   intros Hn Hs. cbn [step]. rewrite Hn, acquire_step, (lease_pos _ Hs).
   unfold key_free, held_by, seen.
-  assert (P : 0 <? lease (isecs l) = true).
-  { apply Z.ltb_lt. pose proof (lease_pos _ Hs) as Q. apply Z.leb_gt in Q. exact Q. }
+  assert (P : 0 < lease (isecs l)).
+  { pose proof (lease_pos _ Hs) as Q. apply Z.leb_gt in Q. exact Q. }
   assert (T : forall k, k <> key -> lookup (taken key l (store s)) k = lookup (store s) k).
   { intros k Hk. unfold taken. apply lookup_put_other. now apply bulk_eqb_neq. }
   destruct (lookup (store s) key) as [e|] eqn:L.
   - destruct (bulk_eqb (evalue e) (BStr (iid l))) eqn:E; cbn.
-    + repeat split; auto. pose proof (seen_taken key l s) as S. unfold seen in S. cbn in S.
-      rewrite S, P. reflexivity.
+    + repeat split; auto. pose proof (seen_taken key l s P) as S. unfold seen in S. cbn in S.
+      rewrite S. reflexivity.
     + repeat split; auto. destruct s; reflexivity.
-  - cbn. repeat split; auto. pose proof (seen_taken key l s) as S. unfold seen in S. cbn in S.
-    rewrite S, P. reflexivity.
+  - cbn. repeat split; auto. pose proof (seen_taken key l s P) as S. unfold seen in S. cbn in S.
+    rewrite S. reflexivity.
 Qed.
 
 Lemma release_spec key s i l :
@@ -166,6 +162,21 @@ Proof.
     + repeat split; auto. destruct s; reflexivity.
   - cbn. repeat split; auto. destruct s; reflexivity.
 Qed.
+
+Lemma step_incl key s o :
+  expiry_inclusive (store (fst (step key s o))) = expiry_inclusive (store s).
+Proof.
+  destruct o as [i|i|i secs|ms|v ttl]; cbn [step]; try reflexivity.
+  - destruct (nth_error (insts s) i) as [l|]; [|reflexivity]. rewrite acquire_step.
+    destruct (lease (isecs l) <=? 0); [reflexivity|].
+    destruct (lookup (store s) key) as [e|]; [destruct (bulk_eqb (evalue e) (BStr (iid l)))|]; reflexivity.
+  - destruct (nth_error (insts s) i) as [l|]; [|reflexivity]. rewrite release_step.
+    destruct (lookup (store s) key) as [e|]; [destruct (bulk_eqb (evalue e) (BStr (iid l)))|]; reflexivity.
+Qed.
+
+Lemma final_incl key : forall ops s,
+  expiry_inclusive (store (final key s ops)) = expiry_inclusive (store s).
+Proof. induction ops as [|o ops IH]; intro s; cbn [final]; [reflexivity|]. now rewrite IH, step_incl. Qed.
 
 (* ------------------------------------------------------------ histories during a lease *)
 Fixpoint elapsed (ops : list op) : Z :=
@@ -254,7 +265,7 @@ Lemma quiet_step key i id T s o :
 Proof.
   intros ND Hi HS HL Hnow Hq.
   assert (Hseen : lookup (store s) key = Some (mkEntry (BStr id) (Some T))).
-  { unfold lookup. rewrite HL. unfold live; cbn. apply Z.ltb_lt in Hnow. now rewrite Hnow. }
+  { unfold lookup. rewrite HL. unfold live; cbn. now rewrite before_lt. }
   destruct o as [j|j|j secs|ms|v ttl]; cbn [quiet] in Hq; cbn [step dt].
   - apply negb_true_iff, Nat.eqb_neq in Hq.
     destruct (nth_error (insts s) j) as [l|] eqn:Hj.
@@ -311,15 +322,15 @@ Qed.
 Lemma lookup_find st k e : lookup st k = Some e -> find k (rdata st) = Some e.
 Proof.
   unfold lookup. destruct (find k (rdata st)) as [e'|]; [|discriminate].
-  destruct (live (rnow st) e'); [|discriminate]. auto.
+  destruct (live (expiry_inclusive st) (rnow st) e'); [|discriminate]. auto.
 Qed.
 
 Lemma held_by_leased key s id T :
-  leased key s id T -> held_by key s id = (rnow (store s) <? T) /\
-                       key_free key s = negb (rnow (store s) <? T).
+  leased key s id T -> held_by key s id = before (expiry_inclusive (store s)) (rnow (store s)) T /\
+                       key_free key s = negb (before (expiry_inclusive (store s)) (rnow (store s)) T).
 Proof.
   intro HL. unfold held_by, key_free, seen, lookup. rewrite HL. unfold live; cbn.
-  destruct (rnow (store s) <? T); cbn; [rewrite String.eqb_refl|]; auto.
+  destruct (before (expiry_inclusive (store s)) (rnow (store s)) T); cbn; [rewrite String.eqb_refl|]; auto.
 Qed.
 
 Lemma no_two_holders key s i j li lj :
@@ -374,7 +385,7 @@ Proof.
   intros ND HS Hn Hok HQ HE s1. subst s1.
   destruct (lease_history key s i l ops ND HS Hn Hok HQ HE) as [P [Q R]].
   split; [|exact R]. destruct (held_by_leased _ _ _ _ P) as [H _]. rewrite H, Q.
-  apply Z.ltb_lt. lia.
+  apply before_lt. lia.
 Qed.
 
 Lemma lease_is_exact key s i l ops d :
@@ -383,23 +394,22 @@ Lemma lease_is_exact key s i l ops d :
   forallb (quiet i) ops = true -> elapsed ops < lease (isecs l) ->
   let s1 := fst (step key s (OAcquire i)) in
   let s3 := fst (step key (final key s1 ops) (OAdvance d)) in
+  let incl := expiry_inclusive (store s) in
   lease (isecs l) = isecs l * 1000 + 500 /\
-  held_by key s3 (iid l) = (elapsed ops + d <? isecs l * 1000 + 500) /\
-  key_free key s3 = negb (elapsed ops + d <? isecs l * 1000 + 500).
+  held_by key s3 (iid l) = before incl (elapsed ops + d) (isecs l * 1000 + 500) /\
+  key_free key s3 = negb (before incl (elapsed ops + d) (isecs l * 1000 + 500)).
 Proof.
-  intros ND HS Hn Hok HQ HE s1 s3. subst s1.
+  intros ND HS Hn Hok HQ HE s1 s3 incl. subst s1.
   destruct (lease_history key s i l ops ND HS Hn Hok HQ HE) as [P [Q R]].
   set (sf := final key (fst (step key s (OAcquire i))) ops) in *.
   assert (P3 : leased key s3 (iid l) (rnow (store s) + lease (isecs l))) by exact P.
   assert (Q3 : rnow (store s3) = rnow (store s) + elapsed ops + d) by (unfold s3; cbn; rewrite Q; lia).
+  assert (I3 : expiry_inclusive (store s3) = incl).
+  { unfold s3, sf, incl. now rewrite step_incl, final_incl, step_incl. }
   destruct (held_by_leased _ _ _ _ P3) as [H1 H2].
-  split; [reflexivity|]. rewrite H1, H2, Q3.
-  replace (rnow (store s) + elapsed ops + d <? rnow (store s) + lease (isecs l))
-    with (elapsed ops + d <? isecs l * 1000 + 500); [auto|].
-  unfold lease, millisPerSecond, tolerance.
-  destruct (elapsed ops + d <? isecs l * 1000 + 500) eqn:E; symmetry.
-  - apply Z.ltb_lt in E. apply Z.ltb_lt. lia.
-  - apply Z.ltb_ge in E. apply Z.ltb_ge. lia.
+  split; [reflexivity|]. rewrite H1, H2, Q3, I3.
+  replace (rnow (store s) + elapsed ops + d) with (rnow (store s) + (elapsed ops + d)) by lia.
+  rewrite before_shift. auto.
 Qed.
 
 Lemma late_release_is_harmless key s i j li lj :
